@@ -404,6 +404,11 @@ def check_display_traps(ctx, prog):
                     % ([G.name(i) for i in marked], sorted(set(cells[q] for q in marked)), [G.name(i) for i in sorted(G.TRAPS)]))
 
 
+def check_display_cells(ctx, prog):
+    from .rules_text import check_cell_table
+    check_cell_table(ctx, prog, 'C10.4e')
+
+
 # ------------------------------------------------------------------------------------------------ C13
 def check_preview(ctx, prog, I, mvs):
     ctx.rule('C13', 'trapped_animal_for_action(Move(s,d)) is None exactly when trapped_piece_bits() of the moved board is '
